@@ -226,7 +226,12 @@ func TrimDBCS(theCstr Cstr) (theBytes []byte) {
 	if len(theBytes) == 0 {
 		return theBytes
 	}
-	if theBytes[len(theBytes)-1] >= 0x80 {
+	// only a lead byte without its trail byte is cut: the trail byte of a complete character may be >= 0x80 as well.
+	isLead := false
+	for _, each := range theBytes {
+		isLead = !isLead && each >= 0x80
+	}
+	if isLead {
 		theBytes[len(theBytes)-1] = 0
 		theBytes = theBytes[:len(theBytes)-1]
 	}
